@@ -525,6 +525,12 @@ def eval_comprehension(E, n):
 
 def eval_next(E, args, node):
     g = args.pos[0]
+    if isinstance(g, dict) and g.get('__cycle__') is not None:
+        # itertools.cycle over a python list: the position is concrete
+        items = g['__cycle__']
+        v = items[g['pos'] % len(items)]
+        g['pos'] += 1
+        return v
     if not (isinstance(g, tuple) and g and g[0] == 'genexp'):
         raise Unsupported('next() of %r' % (g,))
     gnode, genv = g[1], g[2]
